@@ -1,7 +1,8 @@
-"""Per-property case generators and sweeps (implementation-side oracles)."""
-import json
+"""Per-property case generators and sweeps (implementation-side oracles) -- BBS half."""
+import json, itertools
 from . import common as C
 from .common import tb, tob, tl, tol, ti, toi, tou
+from . import pyc
 
 SUITES = ["sha", "shake"]
 
@@ -14,7 +15,7 @@ def fail(S, label, detail, lines):
 
 MSG_LENS = [0, 1, 31, 32, 33, 47, 48, 49, 63, 64, 65, 255, 256, 257, 1000]
 
-def rand_msgs(rng, L, big=False):
+def rand_msgs(rng, L):
     out = []
     for _ in range(L):
         n = rng.choice(MSG_LENS) if rng.random() < 0.7 else rng.randrange(0, 80)
@@ -22,7 +23,10 @@ def rand_msgs(rng, L, big=False):
         out.append(rb(rng, n))
     return out
 
-def make_keys(S, suite, n, label="keygen"):
+def rand_header(rng):
+    return rng.choice([None, b"", rb(rng, 1), rb(rng, 16), rb(rng, 32), rb(rng, 255), rb(rng, 256), rb(rng, 300)])
+
+def make_keys(S, suite, n, label="triv:keygen"):
     rng = S.rng; lines = []
     infos = [None, b"", b"\x01", rb(rng, 255), rb(rng, 256)]
     for i in range(n):
@@ -32,6 +36,45 @@ def make_keys(S, suite, n, label="keygen"):
     res = S.run(lines, expect="ok", label=label)
     return [(r.b(0), r.b(1)) for r in res if r.status == "OK"]
 
+def honest_sigs(S, suite, keys, shapes, label="triv:sign"):
+    """shapes: list of (L, header or 'rand').  Returns list of dicts."""
+    rng = S.rng; flows = []
+    for L, header in shapes:
+        sk, pk = keys[rng.randrange(len(keys))]
+        h = rand_header(rng) if header == "rand" else header
+        flows.append({"suite": suite, "sk": sk, "pk": pk, "header": h, "msgs": rand_msgs(rng, L)})
+    res = S.run(["sign %s %s %s %s %s" % (suite, tb(f["sk"]), tb(f["pk"]), tob(f["header"]), tl(f["msgs"])) for f in flows],
+                expect="ok", label=label)
+    out = []
+    for f, r in zip(flows, res):
+        if r.status == "OK":
+            f["sig"] = r.b(0); out.append(f)
+    return out
+
+def sorted_dedup(idx): return sorted(set(idx))
+def pick(msgs, idx): return [msgs[i] for i in idx]
+
+def honest_proofs(S, flows_idx, label="triv:proofgen"):
+    """flows_idx: list of (sigflow, idx list (maybe unsorted), ph).  Returns list of dicts with 'proof'."""
+    lines = []
+    for f, idx, ph in flows_idx:
+        lines.append("proofgen %s %s %s %s %s %s %s" % (f["suite"], tb(f["pk"]), tb(f["sig"]), tob(f["header"]), tob(ph), tl(f["msgs"]), ti(idx)))
+    res = S.run(lines, expect="ok", label=label)
+    out = []
+    for (f, idx, ph), r in zip(flows_idx, res):
+        if r.status == "OK":
+            d = dict(f); d["idx"] = idx; d["ph"] = ph; d["proof"] = r.b(0); d["D"] = sorted_dedup(idx); out.append(d)
+    return out
+
+def pv_line(p, **kw):
+    q = dict(p); q.update(kw)
+    D = q.get("D")
+    dm = q["dmsgs"] if "dmsgs" in q else pick(q["msgs"], D)
+    return "proofverify %s %s %s %s %s %s %s" % (q["suite"], tb(q["pk"]), tb(q["proof"]), tl(dm), ti(D), tob(q["header"]), tob(q["ph"]))
+
+def norm(h): return b"" if h is None else h
+
+# ====================================================================================== C01
 class C01:
     LEVEL = "proof"
     RULE = ("structured honest flows: both suites; keys from random ikm (32..128 bytes, key_info None/empty/1/255/256 bytes); "
@@ -44,31 +87,18 @@ class C01:
         Ls = [0, 1, 2, 3, 5, 10, 17, 32, 64] if tier == "quick" else [0, 1, 2, 3, 4, 5, 7, 10, 15, 16, 17, 31, 32, 33, 63, 64, 65, 100, 128, 257, 300, 1000]
         stats = {"L": Ls, "flows": 0, "none_vs_empty_pairs": 0}
         for suite in SUITES:
-            keys = make_keys(S, suite, 5 if tier == "quick" else 12)
-            flows = []
-            for L in Ls:
-                for hv in range(4):
-                    header = [None, b"", rb(rng, 16), rb(rng, 300)][hv]
-                    sk, pk = keys[rng.randrange(len(keys))]
-                    msgs = rand_msgs(rng, L)
-                    flows.append((sk, pk, header, msgs if (L > 0 or hv % 2 == 0) else None))
-            sign_lines = ["sign %s %s %s %s %s" % (suite, tb(sk), tb(pk), tob(h), tol(m)) for sk, pk, h, m in flows]
-            sres = S.run(sign_lines, expect="ok", label="sign")
-            vlines = []; dlines = []; sigs = []
-            for (sk, pk, h, m), r in zip(flows, sres):
-                if r.status != "OK": continue
-                sig = r.b(0); sigs.append(sig)
-                vlines.append("verify %s %s %s %s %s" % (suite, tb(pk), tb(sig), tob(h), tol(m)))
-                dlines.append("dec sig %s" % tb(sig))
-            S.run(vlines, expect="ok", label="verify(sign)")
-            dres = S.run(dlines, expect="ok", label="sig-roundtrip")
-            for sig, r in zip(sigs, dres):
-                if r.status == "OK" and r.b(0) != sig:
-                    fail(S, "sig-roundtrip", "re-encoding differs", ["dec sig " + sig.hex()])
-                if len(sig) != 80:
-                    fail(S, "sig-length", "signature is not 80 bytes", [sig.hex()])
+            keys = make_keys(S, suite, 5 if tier == "quick" else 12, label="keygen")
+            shapes = [(L, h) for L in Ls for h in (None, b"", rb(rng, 16), rb(rng, 300))]
+            flows = honest_sigs(S, suite, keys, shapes, label="sign")
+            S.run(["verify %s %s %s %s %s" % (suite, tb(f["pk"]), tb(f["sig"]), tob(f["header"]), tl(f["msgs"])) for f in flows],
+                  expect="ok", label="verify(sign)")
+            dres = S.run(["dec sig %s" % tb(f["sig"]) for f in flows], expect="ok", label="sig-roundtrip")
+            for f, r in zip(flows, dres):
+                if r.status == "OK" and r.b(0) != f["sig"]:
+                    fail(S, "sig-roundtrip", "re-encoding differs", ["dec sig " + f["sig"].hex()])
+                if len(f["sig"]) != 80:
+                    fail(S, "sig-length", "signature is not 80 bytes", [f["sig"].hex()])
             stats["flows"] += len(flows)
-            # None vs empty (header and message list), pairwise equal signatures and cross verification
             sk, pk = keys[0]
             msgs = rand_msgs(rng, 3)
             variants = [("N", "N"), ("S", "N"), ("N", "L"), ("S", "L")]
@@ -83,7 +113,454 @@ class C01:
             stats["none_vs_empty_pairs"] += 6
         return stats
 
-PROPS = {"C01": C01}
+# ====================================================================================== C02
+def msg_mutations(rng, msgs):
+    """single edits of the message list; never returns a list equal to the original"""
+    out = []
+    L = len(msgs)
+    if L:
+        i = rng.randrange(L); m = bytearray(msgs[i])
+        if m:
+            j = rng.randrange(len(m)); m[j] ^= 1 << rng.randrange(8)
+            out.append(("byte-change", msgs[:i] + [bytes(m)] + msgs[i+1:]))
+            out.append(("msg-truncate-byte", msgs[:i] + [msgs[i][:-1]] + msgs[i+1:]))
+        out.append(("msg-extend-byte", msgs[:i] + [msgs[i] + b"\0"] + msgs[i+1:]))
+        out.append(("delete", msgs[:i] + msgs[i+1:]))
+        out.append(("truncate", msgs[:-1]))
+        if L >= 2:
+            a, b = rng.sample(range(L), 2)
+            if msgs[a] != msgs[b]:
+                sw = list(msgs); sw[a], sw[b] = sw[b], sw[a]; out.append(("swap", sw))
+            rot = msgs[1:] + msgs[:1]
+            if rot != msgs: out.append(("rotate", rot))
+        out.append(("duplicate-last", msgs + [msgs[-1]]))
+    i = rng.randrange(L + 1)
+    out.append(("insert", msgs[:i] + [rb(rng, rng.choice([0, 1, 32]))] + msgs[i:]))
+    out.append(("extend", msgs + [b""]))
+    return [(k, m) for k, m in out if m != msgs]
+
+def header_mutations(rng, header):
+    h = norm(header); out = []
+    if h:
+        m = bytearray(h); m[rng.randrange(len(m))] ^= 1 << rng.randrange(8)
+        out += [bytes(m), h[:-1], b""]
+    out += [h + b"\0", rb(rng, 16)]
+    return [x for x in out if x != h]
+
+class C02:
+    LEVEL = "proof"
+    RULE = ("honest signatures (both suites, L in boundary shapes) then single edits of every class the property lists: message byte change / "
+            "insert / delete / swap / truncate / extend, header', pk', all 640 single-bit flips of the 80 signature bytes, cross-suite and "
+            "cross-interface (plain<->blind) re-interpretation; every mutated instance must be Err and model and implementation must agree; "
+            "mutations equal to the original after normalisation (None = empty) are filtered; non-trivial = distinct mutated case")
+    @staticmethod
+    def generate(S, tier):
+        rng = S.rng
+        Ls = [0, 1, 2, 3, 10] if tier == "quick" else [0, 1, 2, 3, 4, 5, 10, 17, 32, 64, 100]
+        nflip = 2 if tier == "quick" else 8
+        stats = {"L": Ls, "mutations": {}, "bitflip_sigs": 0}
+        def cnt(k, n=1): stats["mutations"][k] = stats["mutations"].get(k, 0) + n
+        for suite in SUITES:
+            other = "shake" if suite == "sha" else "sha"
+            keys = make_keys(S, suite, 3)
+            okeys = make_keys(S, other, 1)
+            reps = 2 if tier == "quick" else 4
+            flows = honest_sigs(S, suite, keys, [(L, "rand") for L in Ls for _ in range(reps)])
+            lines = []; labels = []
+            for f in flows:
+                base = (suite, tb(f["pk"]), tb(f["sig"]))
+                for kind, m2 in msg_mutations(rng, f["msgs"]):
+                    lines.append("verify %s %s %s %s %s" % (base + (tob(f["header"]), tl(m2)))); labels.append("msgs:" + kind); cnt("msgs:" + kind)
+                for h2 in header_mutations(rng, f["header"]):
+                    lines.append("verify %s %s %s %s %s" % (base + (tob(h2), tl(f["msgs"])))); labels.append("header"); cnt("header")
+                for sk2, pk2 in keys + okeys:
+                    if pk2 != f["pk"]:
+                        lines.append("verify %s %s %s %s %s" % (suite, tb(pk2), tb(f["sig"]), tob(f["header"]), tl(f["msgs"]))); labels.append("pk"); cnt("pk")
+                # cross suite (same key bytes are a valid key in both suites)
+                lines.append("verify %s %s %s %s %s" % (other, tb(f["pk"]), tb(f["sig"]), tob(f["header"]), tl(f["msgs"]))); labels.append("cross-suite"); cnt("cross-suite")
+                # plain signature through the blind interface
+                lines.append("blindverify %s %s %s %s %s N N" % (suite, tb(f["pk"]), tb(f["sig"]), tob(f["header"]), tl(f["msgs"]))); labels.append("cross-interface:plain->blind"); cnt("cross-interface")
+                if len(f["msgs"]) >= 1:
+                    lines.append("blindverify %s %s %s %s %s %s N" % (suite, tb(f["pk"]), tb(f["sig"]), tob(f["header"]), tl(f["msgs"][:-1]), tl(f["msgs"][-1:]))); labels.append("cross-interface:plain->blind-split"); cnt("cross-interface")
+            # blind signature through the plain interface
+            bl = S.run(["blindsign %s %s %s N %s %s" % (suite, tb(f["sk"]), tb(f["pk"]), tob(f["header"]), tl(f["msgs"])) for f in flows[:6]], expect="ok", label="triv:blindsign")
+            for f, r in zip(flows[:6], bl):
+                if r.status == "OK":
+                    lines.append("verify %s %s %s %s %s" % (suite, tb(f["pk"]), tb(r.b(0)), tob(f["header"]), tl(f["msgs"]))); labels.append("cross-interface:blind->plain"); cnt("cross-interface")
+            # all 640 single-bit flips
+            for f in rng.sample(flows, min(nflip, len(flows))):
+                stats["bitflip_sigs"] += 1
+                for bit in range(640):
+                    s2 = bytearray(f["sig"]); s2[bit // 8] ^= 1 << (bit % 8)
+                    lines.append("verify %s %s %s %s %s" % (suite, tb(f["pk"]), tb(bytes(s2)), tob(f["header"]), tl(f["msgs"]))); labels.append("bitflip"); cnt("bitflip")
+            S.run(lines, expect="err", label=labels)
+        return stats
+
+# ====================================================================================== C03
+def all_subsets(L):
+    for r in range(L + 1):
+        for c in itertools.combinations(range(L), r):
+            yield list(c)
+
+class C03:
+    LEVEL = "proof"
+    RULE = ("honest signatures then proof_gen with the production RNG (draws logged through the hook and replayed into the model: proofs compared "
+            "byte for byte) for ALL 2^L disclosure subsets for small L and random subsets for larger L, header/ph in {None, empty, bytes}; "
+            "proof_verify with exactly the disclosed messages and positions must be Ok, also after decode/re-encode; length must be 272+32*U; "
+            "unsorted / duplicated index lists included; non-trivial = distinct case reaching proof_gen / proof_verify")
+    @staticmethod
+    def generate(S, tier):
+        rng = S.rng
+        exh = 5 if tier == "quick" else 8
+        big = [10, 17, 33, 64] if tier == "quick" else [10, 16, 17, 31, 32, 33, 64, 100, 128, 300]
+        nrand = 4 if tier == "quick" else 20
+        stats = {"exhaustive_L_up_to": exh, "sampled_L": big, "subsets": 0, "U_hist": {}}
+        for suite in SUITES:
+            keys = make_keys(S, suite, 3)
+            flows = honest_sigs(S, suite, keys, [(L, "rand") for L in range(exh + 1)] + [(L, "rand") for L in big])
+            fi = []
+            for f in flows:
+                L = len(f["msgs"])
+                if L <= exh:
+                    subs = list(all_subsets(L))
+                else:
+                    subs = [[], list(range(L)), [0], [L - 1]] + [sorted(rng.sample(range(L), rng.randrange(L + 1))) for _ in range(nrand)]
+                for D in subs:
+                    ph = rng.choice([None, b"", rb(rng, 8), rb(rng, 100)])
+                    fi.append((f, D, ph))
+                # unsorted with duplicates
+                if L >= 2:
+                    D = [rng.randrange(L) for _ in range(L + 2)]
+                    fi.append((f, D, rb(rng, 4)))
+            proofs = honest_proofs(S, fi, label="proofgen")
+            stats["subsets"] += len(fi)
+            for p in proofs:
+                U = len(p["msgs"]) - len(p["D"])
+                stats["U_hist"][str(U)] = stats["U_hist"].get(str(U), 0) + 1
+                if len(p["proof"]) != 272 + 32 * U:
+                    fail(S, "proof-length", "len=%d U=%d" % (len(p["proof"]), U), [p["proof"].hex()])
+            S.run([pv_line(p) for p in proofs], expect="ok", label="proofverify(proofgen)")
+            dres = S.run(["dec proof %s" % tb(p["proof"]) for p in proofs], expect="ok", label="proof-roundtrip")
+            for p, r in zip(proofs, dres):
+                if r.status == "OK" and r.b(0) != p["proof"]:
+                    fail(S, "proof-roundtrip", "re-encoding differs", [p["proof"].hex()])
+        return stats
+
+# ====================================================================================== C04
+def build_forgeries(suite, pk, header, ph, msgs_claimed, D, U, rng, P):
+    """Degenerate-element forgery families built WITHOUT a signature (Python + primitive server)."""
+    api = pyc.API[suite]
+    L = U + len(D)
+    # generators and message scalars through the hash definitions
+    gens = create_gens(suite, L + 1, api, P)
+    Q1, H = gens[0], gens[1:]
+    p1 = bytes.fromhex({"sha": "a8ce256102840821a3e94ea9025e4662b205762f9776b3a766c872b948f1fd225e7c59698588e70d11406d161b4e28c9",
+                        "shake": "8929dfbc7e6642c4ed9cba0856e493f8b9d7d5fcb0c31ef8fdcd34d50648a56c795e106e9eada6e0bda386b414150755"}[suite])
+    h = norm(header)
+    dom_in = pk + pyc.i8(L) + Q1 + b"".join(H) + api + pyc.i8(len(h)) + h
+    dom = pyc.h2s(suite, dom_in, api + b"H2S_")
+    ms = [pyc.h2s(suite, m, api + b"MAP_MSG_TO_SCALAR_AS_HASH_") for m in msgs_claimed]
+    Bv = P.add(p1, P.mul(dom, Q1))
+    for i, m in zip(D, ms): Bv = P.add(Bv, P.mul(m, H[i]))
+    und = [i for i in range(L) if i not in D]
+    out = []
+    O = pyc.G1_ID
+    cands = {"O": O, "Bv": Bv, "P1": p1, "Q1": Q1, "-Bv": P.neg(Bv)}
+    fams = [("O", "O", "Bv"), ("O", "O", "O"), ("O", "O", "P1"), ("O", "O", "-Bv"), ("O", "Bv", "Bv"), ("Bv", "O", "Bv"),
+            ("P1", "O", "Bv"), ("Bv", "Bv", "O"), ("O", "O", "Q1"), ("Q1", "O", "O"), ("O", "P1", "Bv")]
+    for (a, b, d) in fams:
+        Abar, Bbar, Dp = cands[a], cands[b], cands[d]
+        e_c, r1_c = rng.randrange(pyc.R), rng.randrange(pyc.R)
+        m_c = [rng.randrange(pyc.R) for _ in und]
+        # responses solving T2 when D = +-Bv : T2 = Bv*c + D*r3 + sum H m^ ; choose r3 = -c (D=Bv) or +c (D=-Bv) so that T2 is c-free
+        def T12(c, r3):
+            T1 = P.add(P.add(P.mul(c, Bbar), P.mul(e_c, Abar)), P.mul(r1_c, Dp))
+            T2 = P.add(P.mul(c, Bv), P.mul(r3, Dp))
+            for j, mc in zip(und, m_c): T2 = P.add(T2, P.mul(mc, H[j]))
+            return T1, T2
+        if d in ("Bv", "-Bv") and b == "O":
+            T1, T2 = T12(0, 0)    # c-independent
+            carr = pyc.i8(len(D)) + b"".join(pyc.i8(i) + pyc.sc(m) for i, m in zip(D, ms)) + Abar + Bbar + Dp + T1 + T2 + pyc.sc(dom) + pyc.i8(len(norm(ph))) + norm(ph)
+            c = pyc.h2s(suite, carr, api + b"H2S_")
+            r3 = (-c) % pyc.R if d == "Bv" else c
+        else:
+            c = rng.randrange(pyc.R); r3 = rng.randrange(pyc.R)
+            # fixed-point attempt: compute T with guessed c, then recompute c (will not match unless degenerate)
+            T1, T2 = T12(c, r3)
+            carr = pyc.i8(len(D)) + b"".join(pyc.i8(i) + pyc.sc(m) for i, m in zip(D, ms)) + Abar + Bbar + Dp + T1 + T2 + pyc.sc(dom) + pyc.i8(len(norm(ph))) + norm(ph)
+            c2 = pyc.h2s(suite, carr, api + b"H2S_")
+            if a == "O" and b == "O":
+                c = c2 if d == "O" else c   # with D=O: T1=O, T2 = Bv*c + .. depends on c
+        proof = Abar + Bbar + Dp + pyc.sc(e_c) + pyc.sc(r1_c) + pyc.sc(r3) + b"".join(pyc.sc(x) for x in m_c) + pyc.sc(c)
+        out.append(("%s/%s/%s" % (a, b, d), proof))
+    return out
+
+def create_gens(suite, count, api, P):
+    f = pyc.expand_xmd if suite == "sha" else pyc.expand_xof
+    seed_dst = api + b"SIG_GENERATOR_SEED_"; gen_dst = api + b"SIG_GENERATOR_DST_"
+    v = f(api + b"MESSAGE_GENERATOR_SEED", seed_dst, 48)
+    out = []
+    for i in range(1, count + 1):
+        v = f(v + pyc.i8(i), seed_dst, 48)
+        out.append(bytes.fromhex(P.call("h2c %s %s %s" % (suite, v.hex(), gen_dst.hex()))))
+    return out
+
+class C04:
+    LEVEL = "proof"
+    RULE = ("honest proofs (both suites, several L and disclosure sets) then single edits of the statement (disclosed message byte, moved index, "
+            "dropped/added disclosed message, header, ph, pk), ALL single-bit flips of every proof octet, truncations/extensions by whole scalars; "
+            "plus degenerate-element forgeries built WITHOUT a signature for random keys (Abar/Bbar/D in {identity, Bv, P1, Q1, -Bv}, responses "
+            "chosen so that T1/T2 do not depend on the challenge); every instance must be Err on implementation and model alike")
+    @staticmethod
+    def generate(S, tier):
+        rng = S.rng
+        Ls = [1, 3, 5] if tier == "quick" else [1, 2, 3, 5, 8, 10, 17]
+        nflip = 1 if tier == "quick" else 5
+        stats = {"mutations": {}, "forgeries": 0, "bitflip_proofs": 0}
+        def cnt(k, n=1): stats["mutations"][k] = stats["mutations"].get(k, 0) + n
+        P = pyc.Prims()
+        for suite in SUITES:
+            other = "shake" if suite == "sha" else "sha"
+            keys = make_keys(S, suite, 3)
+            flows = honest_sigs(S, suite, keys, [(L, "rand") for L in Ls for _ in range(2)])
+            fi = []
+            for f in flows:
+                L = len(f["msgs"])
+                for _ in range(2):
+                    D = sorted(rng.sample(range(L), rng.randrange(L + 1)))
+                    fi.append((f, D, rng.choice([None, b"", rb(rng, 12)])))
+                fi.append((f, list(range(L)), rb(rng, 5)))
+            proofs = honest_proofs(S, fi)
+            lines = []; labels = []
+            def add(line, lab): lines.append(line); labels.append(lab); cnt(lab)
+            for p in proofs:
+                D = p["D"]; L = len(p["msgs"]); dm = pick(p["msgs"], D)
+                if D:
+                    k = rng.randrange(len(D)); m = bytearray(dm[k])
+                    if m:
+                        m[rng.randrange(len(m))] ^= 1 << rng.randrange(8)
+                    else:
+                        m = bytearray(b"\0")
+                    add(pv_line(p, dmsgs=dm[:k] + [bytes(m)] + dm[k+1:]), "disclosed-msg")
+                    und = [i for i in range(L) if i not in D]
+                    if und:
+                        D2 = sorted(D[:k] + [und[rng.randrange(len(und))]] + D[k+1:])
+                        # same messages claimed at other positions
+                        add(pv_line(p, D=D2, dmsgs=dm), "moved-index")
+                    add(pv_line(p, D=D[:-1], dmsgs=dm[:-1]), "dropped-disclosed")
+                    if len(D) >= 2 and dm[0] != dm[1]:
+                        add(pv_line(p, dmsgs=[dm[1], dm[0]] + dm[2:]), "swapped-disclosed")
+                und = [i for i in range(L) if i not in D]
+                if und:
+                    j = und[0]; D2 = sorted(D + [j])
+                    add(pv_line(p, D=D2, dmsgs=pick(p["msgs"], D2)), "extra-disclosed")   # U no longer matches
+                for h2 in header_mutations(rng, p["header"])[:2]:
+                    add(pv_line(p, header=h2), "header")
+                for ph2 in header_mutations(rng, p["ph"])[:2]:
+                    add(pv_line(p, ph=ph2), "ph")
+                for sk2, pk2 in keys:
+                    if pk2 != p["pk"]: add(pv_line(p, pk=pk2), "pk")
+                add(pv_line(p, suite=other), "cross-suite")
+                # whole-scalar truncation / extension (changes U)
+                pr = p["proof"]
+                add(pv_line(p, proof=pr[:-32]), "truncate-scalar")
+                add(pv_line(p, proof=pr + pyc.sc(rng.randrange(pyc.R))), "extend-scalar")
+                add(pv_line(p, proof=pr[:240] + pyc.sc(rng.randrange(pyc.R)) + pr[240:]), "insert-scalar")
+                # shifting L by an index beyond range
+                add(pv_line(p, D=D + [L + 5], dmsgs=dm + [b""]), "index-out-of-range")
+            for p in rng.sample(proofs, min(nflip, len(proofs))):
+                stats["bitflip_proofs"] += 1
+                pr = p["proof"]
+                for bit in range(len(pr) * 8):
+                    q = bytearray(pr); q[bit // 8] ^= 1 << (bit % 8)
+                    add(pv_line(p, proof=bytes(q)), "bitflip")
+            S.run(lines, expect="err", label=labels)
+            # forgeries without a signature
+            flines = []; flabels = []
+            for trial in range(2 if tier == "quick" else 6):
+                sk, pk = keys[rng.randrange(len(keys))]
+                if trial % 2 == 1:
+                    pk = P.g2mulgen(rng.randrange(1, pyc.R))       # a key nobody holds the secret of
+                L = rng.choice([1, 2, 4]); U = rng.randrange(0, L + 1)
+                D = sorted(rng.sample(range(L), L - U))
+                claimed = [rb(rng, rng.choice([0, 5, 32])) for _ in D]
+                header = rand_header(rng); ph = rng.choice([None, b"", rb(rng, 9)])
+                for name, proof in build_forgeries(suite, pk, header, ph, claimed, D, U, rng, P):
+                    flines.append("proofverify %s %s %s %s %s %s %s" % (suite, tb(pk), tb(proof), tl(claimed), ti(D), tob(header), tob(ph)))
+                    flabels.append("F1:degenerate-forgery|" + name); stats["forgeries"] += 1
+            S.run(flines, expect="err", label=flabels)
+        P.close()
+        return stats
+
+# ====================================================================================== C05 / C06 helpers
+def blind_flows(S, suite, keys, shapes, label="triv:blind"):
+    """shapes: list of (L, M or None(no commitment), header).  Runs commit + blindsign.  Returns dicts."""
+    rng = S.rng; fl = []
+    for L, M, header in shapes:
+        sk, pk = keys[rng.randrange(len(keys))]
+        h = rand_header(rng) if header == "rand" else header
+        fl.append({"suite": suite, "sk": sk, "pk": pk, "header": h, "msgs": rand_msgs(rng, L), "cm": (None if M is None else rand_msgs(rng, M))})
+    cl = [f for f in fl if f["cm"] is not None]
+    res = S.run(["commit %s %s" % (suite, tl(f["cm"])) for f in cl], expect="ok", label=label + ":commit")
+    for f, r in zip(cl, res):
+        if r.status == "OK":
+            f["cwp"] = r.b(0); f["blind"] = r.b(1)
+    fl = [f for f in fl if f["cm"] is None or "cwp" in f]
+    res = S.run(["blindsign %s %s %s %s %s %s" % (suite, tb(f["sk"]), tb(f["pk"]), tob(f.get("cwp")), tob(f["header"]), tl(f["msgs"])) for f in fl],
+                expect="ok", label=label + ":blindsign")
+    out = []
+    for f, r in zip(fl, res):
+        if r.status == "OK":
+            f["sig"] = r.b(0); out.append(f)
+    return out
+
+def bv_line(f, **kw):
+    q = dict(f); q.update(kw)
+    return "blindverify %s %s %s %s %s %s %s" % (q["suite"], tb(q["pk"]), tb(q["sig"]), tob(q["header"]), tl(q["msgs"]), tol(q["cm"]), tob(q.get("blind")))
+
+def bpg_line(f, D, Dc, ph):
+    return "blindproofgen %s %s %s %s %s %s %s %s %s %s" % (f["suite"], tb(f["pk"]), tb(f["sig"]), tob(f["header"]), tob(ph), tl(f["msgs"]),
+                                                           tol(f["cm"]), ti(D), ti(Dc), tob(f.get("blind")))
+
+def bpv_line(p, **kw):
+    q = dict(p); q.update(kw)
+    cm = q["cm"] or []
+    dm = q["dmsgs"] if "dmsgs" in q else pick(q["msgs"], q["D"])
+    dcm = q["dcmsgs"] if "dcmsgs" in q else pick(cm, q["Dc"])
+    Lv = q["Lv"] if "Lv" in q else len(q["msgs"])
+    return "blindproofverify %s %s %s %s %s %s %s %s %s %s" % (q["suite"], tb(q["pk"]), tb(q["proof"]), tob(q["header"]), tob(q["ph"]), tou(Lv),
+                                                               tl(dm), tl(dcm), ti(q["D"]), ti(q["Dc"]))
+
+def blind_proofs(S, triples, label="triv:blindproofgen"):
+    res = S.run([bpg_line(f, D, Dc, ph) for f, D, Dc, ph in triples], expect="ok", label=label)
+    out = []
+    for (f, D, Dc, ph), r in zip(triples, res):
+        if r.status == "OK":
+            d = dict(f); d.update({"D": sorted_dedup(D), "Dc": sorted_dedup(Dc), "ph": ph, "proof": r.b(0)}); out.append(d)
+    return out
+
+class C05:
+    LEVEL = "proof"
+    RULE = ("blind flows on both suites: commit (production RNG, draws replayed into the model) for M committed messages incl. M=0 and no commitment, "
+            "blind_sign over the serialized commitment, verify_blind_sign with the returned blinding factor; then blind_proof_gen / blind_proof_verify for "
+            "ALL 2^L x 2^M disclosure pairs for small (L,M) and samples for larger shapes; everything must be Ok and byte-identical between model and implementation")
+    @staticmethod
+    def generate(S, tier):
+        rng = S.rng
+        small = 2 if tier == "quick" else 3
+        shapes = [(L, M, "rand") for L in range(small + 1) for M in range(small + 1)]
+        shapes += [(0, None, "rand"), (2, None, None), (5, None, b"")]
+        shapes += [(5, 4, "rand"), (10, 1, "rand"), (1, 10, "rand")] + ([(17, 17, "rand"), (33, 8, "rand"), (64, 64, "rand")] if tier != "quick" else [])
+        stats = {"shapes": len(shapes), "pairs": 0}
+        for suite in SUITES:
+            keys = make_keys(S, suite, 3)
+            flows = blind_flows(S, suite, keys, shapes, label="blind")
+            S.run([bv_line(f) for f in flows], expect="ok", label="verify_blind_sign(blind_sign)")
+            tr = []
+            for f in flows:
+                L = len(f["msgs"]); M = len(f["cm"] or [])
+                if L <= small and M <= small:
+                    pairs = [(D, Dc) for D in all_subsets(L) for Dc in all_subsets(M)]
+                else:
+                    pairs = [([], []), (list(range(L)), list(range(M)))] + [
+                        (sorted(rng.sample(range(L), rng.randrange(L + 1))), sorted(rng.sample(range(M), rng.randrange(M + 1)))) for _ in range(3)]
+                for D, Dc in pairs:
+                    tr.append((f, D, Dc, rng.choice([None, b"", rb(rng, 7)])))
+            stats["pairs"] += len(tr)
+            proofs = blind_proofs(S, tr, label="blindproofgen")
+            S.run([bpv_line(p) for p in proofs], expect="ok", label="blind_proof_verify(blind_proof_gen)")
+            for p in proofs:
+                U = len(p["msgs"]) - len(p["D"]) + 1 + len(p["cm"] or []) - len(p["Dc"])
+                if len(p["proof"]) != 272 + 32 * U:
+                    fail(S, "blind-proof-length", "len=%d U=%d" % (len(p["proof"]), U), [p["proof"].hex()])
+        return stats
+
+class C06:
+    LEVEL = "proof"
+    RULE = ("honest blind runs then: ALL single-bit flips of every commitment-with-proof octet, cross-suite replay, truncation/extension by whole scalars and by "
+            "bytes, proofs for other committed messages => blind_sign must be Err; single edits of (committed msgs, signer msgs, blinding factor, header, pk) => "
+            "verify_blind_sign Err; single edits of (disclosed data, L, ph, header, pk, proof bits) => blind_proof_verify Err; model and implementation must agree")
+    @staticmethod
+    def generate(S, tier):
+        rng = S.rng
+        stats = {"mutations": {}}
+        def cnt(k, n=1): stats["mutations"][k] = stats["mutations"].get(k, 0) + n
+        shapes = [(2, 2, "rand"), (0, 1, "rand"), (3, 0, "rand"), (1, 3, "rand")] + ([(5, 5, "rand"), (0, 0, None), (8, 2, "rand")] if tier != "quick" else [])
+        for suite in SUITES:
+            other = "shake" if suite == "sha" else "sha"
+            keys = make_keys(S, suite, 3)
+            flows = blind_flows(S, suite, keys, shapes)
+            lines = []; labels = []
+            def add(line, lab): lines.append(line); labels.append(lab); cnt(lab)
+            def bs(f, cwp, suite_=None): return "blindsign %s %s %s %s %s %s" % (suite_ or f["suite"], tb(f["sk"]), tb(f["pk"]), tob(cwp), tob(f["header"]), tl(f["msgs"]))
+            for k, f in enumerate(flows):
+                cwp = f["cwp"]
+                if k < (2 if tier == "quick" else 4):
+                    for bit in range(len(cwp) * 8):
+                        q = bytearray(cwp); q[bit // 8] ^= 1 << (bit % 8)
+                        add(bs(f, bytes(q)), "commit-bitflip")
+                add(bs(f, cwp, other), "commit-cross-suite")
+                add(bs(f, cwp[:-32]), "commit-truncate-scalar")
+                add(bs(f, cwp + pyc.sc(rng.randrange(pyc.R))), "commit-extend-scalar")
+                add(bs(f, cwp[:80] + pyc.sc(rng.randrange(pyc.R)) + cwp[80:]), "commit-insert-scalar")
+                for n in (1, 7, 31): add(bs(f, cwp + bytes(n)), "commit-trailing-bytes")
+                for n in (1, 31, 33): add(bs(f, cwp[:-n]), "commit-truncate-bytes")
+                # proof made for other committed messages, transplanted onto this commitment point
+                o = [g for g in flows if g is not f and len(g["cm"]) == len(f["cm"])]
+                for g in o[:1]:
+                    add(bs(f, f["cwp"][:48] + g["cwp"][48:]), "commit-proof-for-other-messages")
+                # verify_blind_sign edits
+                for kind, m2 in msg_mutations(rng, f["cm"])[:4]: add(bv_line(f, cm=m2), "bv:committed-" + kind)
+                for kind, m2 in msg_mutations(rng, f["msgs"])[:4]: add(bv_line(f, msgs=m2), "bv:signer-" + kind)
+                b2 = pyc.sc((int.from_bytes(f["blind"], "big") + 1) % pyc.R)
+                add(bv_line(f, blind=b2), "bv:blind"); add(bv_line(f, blind=None), "bv:blind-absent")
+                for h2 in header_mutations(rng, f["header"])[:2]: add(bv_line(f, header=h2), "bv:header")
+                for sk2, pk2 in keys:
+                    if pk2 != f["pk"]: add(bv_line(f, pk=pk2), "bv:pk")
+                add(bv_line(f, suite=other), "bv:cross-suite")
+                if f["msgs"] and f["cm"]:
+                    add(bv_line(f, msgs=f["msgs"] + f["cm"][:1], cm=f["cm"][1:]), "bv:moved-boundary")
+            S.run(lines, expect="err", label=labels)
+            # blind proofs
+            tr = []
+            for f in flows:
+                L = len(f["msgs"]); M = len(f["cm"])
+                tr.append((f, sorted(rng.sample(range(L), rng.randrange(L + 1))), sorted(rng.sample(range(M), rng.randrange(M + 1))), rng.choice([None, rb(rng, 6)])))
+                tr.append((f, list(range(L)), list(range(M)), b"x"))
+            proofs = blind_proofs(S, tr)
+            lines = []; labels = []
+            for k, p in enumerate(proofs):
+                L = len(p["msgs"]); M = len(p["cm"]); D = p["D"]; Dc = p["Dc"]
+                dm = pick(p["msgs"], D); dcm = pick(p["cm"], Dc)
+                if D:
+                    add(bpv_line(p, dmsgs=[dm[0] + b"\1"] + dm[1:]), "bpv:disclosed-msg")
+                    add(bpv_line(p, D=D[1:], dmsgs=dm[1:]), "bpv:dropped-disclosed")
+                if Dc:
+                    add(bpv_line(p, dcmsgs=[dcm[0] + b"\1"] + dcm[1:]), "bpv:disclosed-committed-msg")
+                    add(bpv_line(p, Dc=Dc[1:], dcmsgs=dcm[1:]), "bpv:dropped-committed")
+                for dl in (1, -1, 2, 1000, 2**63, 2**64 - 1 - L):
+                    if L + dl >= 0: add(bpv_line(p, Lv=L + dl), "bpv:L")
+                if L > 0: add(bpv_line(p, Lv=None), "bpv:L-absent")
+                for ph2 in header_mutations(rng, p["ph"])[:2]: add(bpv_line(p, ph=ph2), "bpv:ph")
+                for h2 in header_mutations(rng, p["header"])[:2]: add(bpv_line(p, header=h2), "bpv:header")
+                for sk2, pk2 in keys:
+                    if pk2 != p["pk"]: add(bpv_line(p, pk=pk2), "bpv:pk")
+                add(bpv_line(p, suite=other), "bpv:cross-suite")
+                # through the plain interface
+                add("proofverify %s %s %s %s %s %s %s" % (p["suite"], tb(p["pk"]), tb(p["proof"]), tl(dm + dcm), ti(D + [j + L + 1 for j in Dc]), tob(p["header"]), tob(p["ph"])), "bpv:plain-interface")
+                pr = p["proof"]
+                add(bpv_line(p, proof=pr[:-32]), "bpv:truncate-scalar"); add(bpv_line(p, proof=pr + pyc.sc(5)), "bpv:extend-scalar")
+                if k < (1 if tier == "quick" else 3):
+                    for bit in range(len(pr) * 8):
+                        q = bytearray(pr); q[bit // 8] ^= 1 << (bit % 8)
+                        add(bpv_line(p, proof=bytes(q)), "bpv:bitflip")
+            S.run(lines, expect="err", label=labels)
+        return stats
+
+from .props2 import C07, C08, C09, C10, C11, C12   # noqa: E402
+
+PROPS = {"C01": C01, "C02": C02, "C03": C03, "C04": C04, "C05": C05, "C06": C06,
+         "C07": C07, "C08": C08, "C09": C09, "C10": C10, "C11": C11, "C12": C12}
 
 def replay(pid, path):
     """Re-run the cases stored in a replay file against the current implementation and model."""
@@ -93,7 +570,6 @@ def replay(pid, path):
     lines = [f["case"] for f in obj.get("failures", []) + obj.get("correspondence_disagreements", []) if " ;; " not in f["case"]]
     res = S.run(lines)
     mod = S.run_model()
-    bad = 0
     for l, r, m in zip(lines, res, mod):
         print("case:", l[:300]); print("  impl :", r.raw[:300]); print("  model:", m.raw[:300] if m else None)
     return 0
